@@ -45,7 +45,12 @@ func NewDualView() *View {
 
 func NewViewFromGroupedRecord(ctx context.Context, flags *option.Flags, referenceRecord ReferenceRecord) (*View, error) {
 	view := NewView()
-	view.Header = referenceRecord.view.Header
+	// The views of all groups are built from the same header by the goroutines that evaluate the
+	// groups in parallel. The capacity is clipped so that a column added to one of these views
+	// (a sort key of LISTAGG or JSON_AGG) is appended to a copy and never written into the spare
+	// capacity of the shared header.
+	header := referenceRecord.view.Header
+	view.Header = header[:len(header):len(header)]
 	record := referenceRecord.view.RecordSet[referenceRecord.recordIndex]
 
 	view.RecordSet = make(RecordSet, record.GroupLen())
